@@ -188,6 +188,14 @@ def build_cases(quick):
         for a in (False, True)
         for g in (False, True)
     ]
+    # large sizes (thresholds / caches): a sparse product
+    for n in (1000, 4097, 65536, 100003):
+        for nb in (1, 2, 7, 16, 1000, 4096):
+            for st in (0, 2000):
+                for a in (False, True):
+                    cases.append(dict(kind="batch_tasks", n_tasks=n, n_batches=nb, start=st, arr=a, args=False))
+                    # the same (n_tasks, n_batches) again right away with another start index: results must not depend on call history
+                    cases.append(dict(kind="batch_tasks", n_tasks=n, n_batches=nb, start=st + 5, arr=a, args=False))
     fan = []
     Ns = (5, 8) if quick else (3, 7, 12)
     for N in Ns:
